@@ -57,8 +57,8 @@ VGff(ev) ==
    every qualifier key/value of the source decodes back (keys lower-cased, comma = value separator) *)
 VAttrs(ev) ==
   LET want == ev[3] got == ev[4]
-      G(k) == IF \E i \in DOMAIN got : got[i][1] = k THEN {got[CHOOSE i \in DOMAIN got : got[i][1] = k][2][j] :
-                      j \in DOMAIN got[CHOOSE i \in DOMAIN got : got[i][1] = k][2]} ELSE {} IN
+      \* a tag that a row carries more than once stands for the union of its values (what a GFF3 reader makes of it)
+      G(k) == UNION {{got[i][2][j] : j \in DOMAIN got[i][2]} : i \in {n \in DOMAIN got : got[n][1] = k}} IN
   IF ev[2] = "source-unchanged-by-export"
   THEN Ok(Len(want) = Len(got) /\ \A i \in DOMAIN want : G(want[i][1]) = {want[i][2][j] : j \in DOMAIN want[i][2]},
           "export-changed-the-qualifiers-of-its-source")
